@@ -168,6 +168,27 @@ CLAIMED = {
    note="As C03. hostname/subdomain/template volumes are outside the model (harness `ident` flag on the real pod object).",
    technique="Coq proof (string-level round trip; log-order lemma; state monotonicity through the reconcile) + differential correspondence + monitor",
    ref="6 C06"),
+ "C09": dict(
+   text="Coq theorems (C09.v): for every API state, cache and fault oracle (any number, kind and position of faults) a reconcile that reports success has met "
+        "only the enumerated benign errors (NotFound/Invalid on ownership patches, AlreadyExists in the collision loop, Conflict retried in place, the ignored "
+        "re-read) — any other failing call, reads included, makes it report failure; a reported failure is re-queued with back-off over the queue contract; the "
+        "executor stops at the first failing action and every call follows the one plan, so the safety theorems (stated for all oracles) cover partial work "
+        "and crashes. Fault enumeration on the real controller through the real work queue: every call position x every error kind (pairs in the thorough "
+        "tier), compared with the model on outcome and FULL log; monitors: reported, requeued, partial work safe (C03 C04 C05 C07 C10 C11 C13 monitors).",
+   note="As C03. Crash = 'timeout applied or lost, then nothing' (log prefix). Recovery to the same final state is C02's convergence (partial there).",
+   technique="Coq proof (benign-error logic over the monadic model for all oracles) + exhaustive single-fault enumeration on the real controller + monitors",
+   ref="6 C09"),
+ "C02": dict(
+   text="Coq theorems (C02.v): NO STUCK STATE — for every settled snapshot within the premises, an empty plan implies the pods are exactly the desired ones, "
+        "steady, identity/storage in order, and at the update revision from the partition up; FIXED POINT — converged pods give an empty plan, and then every "
+        "reconcile (all API states, oracles) issues no pod or claim write. PARTIAL: termination of the fair suffix (a decreasing measure over rounds) and "
+        "quietness of status/revision writes at the fixed point are not proved; they are decided on the implementation on every generated history "
+        "(chaotic prefix of reconciles, kubelet events, partial cache refreshes, faults, edits that stop; fair suffix): converged, status = census, last two "
+        "reconciles write nothing. The environment model (Env.v: caches, kubelet, edits) is compared with the real world after every op inside coqc.",
+   note="PARTIAL as stated (named C02_converges_partial_example + comment in C02.v). Premises: valid defaulted spec, canonical names, no unclaimable pod "
+        "holding a desired name, not paused/deleting, no terminal-phase pod outside the desired set under the ordered policy.",
+   technique="Coq proof (fixed points and progress of the planner) + history-level differential correspondence of the environment model + convergence monitor",
+   ref="6 C02"),
 }
 
 checks = []
